@@ -179,10 +179,10 @@ fn check_hs<H, T>(a: &Arc<HeaderSlice<H, [T]>>, idx: usize, len: usize) {
 }
 
 /// part A: fat constructors, thin conversion, vec
-fn hs_a<H: Copy + PartialEq, T: Copy + PartialEq, const N: usize>(h: H, vals: [T; N]) {
+fn hs_a<H: Copy + Pl, T: Copy + Pl, const N: usize>(h: H, vals: [T; N]) {
     let a = Arc::from_header_and_slice(h, &vals[..]);
     check_hs(&a, 0, N);
-    assert!(a.header == h && (N == 0 || (a.slice[0] == vals[0] && a.slice[N - 1] == vals[N - 1])));
+    assert!(a.header.sig() == h.sig() && (N == 0 || (a.slice[0].sig() == vals[0].sig() && a.slice[N - 1].sig() == vals[N - 1].sig())));
     drop(a);
     all_freed(1);
     // iter -> thin -> clone -> drop thin, drop as fat
@@ -196,7 +196,7 @@ fn hs_a<H: Copy + PartialEq, T: Copy + PartialEq, const N: usize>(h: H, vals: [T
     let t = Arc::into_thin(a);
     let t2 = t.clone();
     assert!(t.heap_ptr() as usize == block_nr(1).addr);
-    assert!(t.slice.len() == N && t.header.header == h);
+    assert!(t.slice.len() == N && t.header.header.sig() == h.sig());
     drop(t);
     assert!(n_live() == 1);
     drop(Arc::from_thin(t2));
@@ -209,12 +209,12 @@ fn hs_a<H: Copy + PartialEq, T: Copy + PartialEq, const N: usize>(h: H, vals: [T
     let a = Arc::from_header_and_vec(h, v);
     check_hs(&a, 3, N);
     assert!(n_live() == 1, "the Vec's buffer must be released by from_header_and_vec");
-    assert!(N == 0 || a.slice[N - 1] == vals[N - 1]);
+    assert!(N == 0 || a.slice[N - 1].sig() == vals[N - 1].sig());
     drop(a);
     all_freed(4);
 }
 /// part B: uninit construction, header erasure both ways, raw slice round trip
-fn hs_b<H: Copy + PartialEq, T: Copy + PartialEq, const N: usize>(h: H, vals: [T; N]) {
+fn hs_b<H: Copy + Pl, T: Copy + Pl, const N: usize>(h: H, vals: [T; N]) {
     let mut u = UniqueArc::<HeaderSlice<H, [MaybeUninit<T>]>>::from_header_and_uninit_slice(h, N);
     for i in 0..N {
         u.slice[i].write(vals[i]);
@@ -254,7 +254,7 @@ fn hs_b<H: Copy + PartialEq, T: Copy + PartialEq, const N: usize>(h: H, vals: [T
 macro_rules! hs {
     ($a:ident, $b:ident, $h:ty, $t:ty, $n:expr, $hv:expr, $tv:expr) => {
         #[kani::proof]
-        #[kani::unwind(70)]
+        #[kani::unwind(6)]
         #[kani::stub(std::alloc::alloc, alloc_stub)]
         #[kani::stub(alloc::alloc::dealloc_nonnull, dealloc_stub)]
         fn $a() {
@@ -263,7 +263,7 @@ macro_rules! hs {
             kani::cover!(true, "end of harness reached");
         }
         #[kani::proof]
-        #[kani::unwind(70)]
+        #[kani::unwind(6)]
         #[kani::stub(std::alloc::alloc, alloc_stub)]
         #[kani::stub(alloc::alloc::dealloc_nonnull, dealloc_stub)]
         fn $b() {
